@@ -559,4 +559,91 @@ mod verif_harness {
         kani::cover!(perm == 5 && r.is_ok(), "fully reversed order");
         std::mem::forget(r);
     }
+
+    /// A visitor that only records WHICH `visit_*` method the deserializer chose, and with what
+    /// numeric value (as f64 bits for floats, as i128 for integers).
+    struct Which;
+    #[derive(PartialEq, Eq, Clone, Copy, Debug)]
+    enum Hit {
+        Bool(bool),
+        I8(i8),
+        I16(i16),
+        I32(i32),
+        I64(i64),
+        I128(i128),
+        U8(u8),
+        U16(u16),
+        U32(u32),
+        U64(u64),
+        U128(u128),
+        F32(u32),
+        F64(u64),
+        Char(char),
+        Str,
+        Other,
+    }
+    impl<'de> Visitor<'de> for Which {
+        type Value = Hit;
+        fn expecting(&self, f: &mut std::fmt::Formatter) -> std::fmt::Result {
+            f.write_str("anything")
+        }
+        fn visit_bool<E>(self, v: bool) -> Result<Hit, E> { Ok(Hit::Bool(v)) }
+        fn visit_i8<E>(self, v: i8) -> Result<Hit, E> { Ok(Hit::I8(v)) }
+        fn visit_i16<E>(self, v: i16) -> Result<Hit, E> { Ok(Hit::I16(v)) }
+        fn visit_i32<E>(self, v: i32) -> Result<Hit, E> { Ok(Hit::I32(v)) }
+        fn visit_i64<E>(self, v: i64) -> Result<Hit, E> { Ok(Hit::I64(v)) }
+        fn visit_i128<E>(self, v: i128) -> Result<Hit, E> { Ok(Hit::I128(v)) }
+        fn visit_u8<E>(self, v: u8) -> Result<Hit, E> { Ok(Hit::U8(v)) }
+        fn visit_u16<E>(self, v: u16) -> Result<Hit, E> { Ok(Hit::U16(v)) }
+        fn visit_u32<E>(self, v: u32) -> Result<Hit, E> { Ok(Hit::U32(v)) }
+        fn visit_u64<E>(self, v: u64) -> Result<Hit, E> { Ok(Hit::U64(v)) }
+        fn visit_u128<E>(self, v: u128) -> Result<Hit, E> { Ok(Hit::U128(v)) }
+        fn visit_f32<E>(self, v: f32) -> Result<Hit, E> { Ok(Hit::F32(v.to_bits())) }
+        fn visit_f64<E>(self, v: f64) -> Result<Hit, E> { Ok(Hit::F64(v.to_bits())) }
+        fn visit_char<E>(self, v: char) -> Result<Hit, E> { Ok(Hit::Char(v)) }
+        fn visit_str<E>(self, _v: &str) -> Result<Hit, E> { Ok(Hit::Str) }
+        fn visit_string<E>(self, _v: String) -> Result<Hit, E> { Ok(Hit::Str) }
+        fn visit_unit<E>(self) -> Result<Hit, E> { Ok(Hit::Other) }
+    }
+
+    // @tier quick
+    // @obligation type routing of single values: for every numeric target type the value deserializer parses the text AS THAT TYPE and hands it to the visitor method of that type (deserialize_i64 -> visit_i64 with the i64 value, deserialize_f64 -> visit_f64 with the f64 value, ...): no value ever travels through a narrower or differently-signed type
+    // @bounds value = one symbolic decimal digit for the 10 integer types; the literal "0.1" (not representable in f32) and "16777217" for f32/f64; bool/char/string with fixed literals
+    // @functions ValueDeserializer::deserialize_{bool,i8,i16,i32,i64,i128,u8,u16,u32,u64,u128,f32,f64,char,str,string} (parse_value! table)
+    // @timeout 1800
+    #[kani::proof]
+    #[kani::unwind(12)]
+    #[kani::stub(std::fmt::format, fmt_stub)]
+    fn c15_type_routing() {
+        let d: u8 = kani::any();
+        kani::assume(d <= 9);
+        let buf = [b'0' + d];
+        let s = unsafe { std::str::from_utf8_unchecked(&buf[..]) };
+        let vd = |v: &'static str| ValueDeserializer { key: None, value: Cow::Borrowed(v) };
+        let vs = || ValueDeserializer { key: None, value: Cow::Borrowed(s) };
+        let which: u8 = kani::any();
+        kani::assume(which < 16);
+        let ok = match which {
+            0 => matches!(vs().deserialize_i8(Which), Ok(Hit::I8(v)) if v == d as i8),
+            1 => matches!(vs().deserialize_i16(Which), Ok(Hit::I16(v)) if v == d as i16),
+            2 => matches!(vs().deserialize_i32(Which), Ok(Hit::I32(v)) if v == d as i32),
+            3 => matches!(vs().deserialize_i64(Which), Ok(Hit::I64(v)) if v == d as i64),
+            4 => matches!(vs().deserialize_i128(Which), Ok(Hit::I128(v)) if v == d as i128),
+            5 => matches!(vs().deserialize_u8(Which), Ok(Hit::U8(v)) if v == d),
+            6 => matches!(vs().deserialize_u16(Which), Ok(Hit::U16(v)) if v == d as u16),
+            7 => matches!(vs().deserialize_u32(Which), Ok(Hit::U32(v)) if v == d as u32),
+            8 => matches!(vs().deserialize_u64(Which), Ok(Hit::U64(v)) if v == d as u64),
+            9 => matches!(vs().deserialize_u128(Which), Ok(Hit::U128(v)) if v == d as u128),
+            10 => matches!(vd("true").deserialize_bool(Which), Ok(Hit::Bool(true))),
+            11 => matches!(vd("x").deserialize_char(Which), Ok(Hit::Char('x'))),
+            12 => matches!(vd("x").deserialize_str(Which), Ok(Hit::Str)) && matches!(vd("x").deserialize_string(Which), Ok(Hit::Str)),
+            // "0.1" and 16777217 are not representable in f32: a detour through f32 changes the bits
+            13 => matches!(vd("0.1").deserialize_f64(Which), Ok(Hit::F64(b)) if b == 0.1f64.to_bits()),
+            14 => matches!(vd("16777217").deserialize_f64(Which), Ok(Hit::F64(b)) if b == 16777217f64.to_bits()),
+            _ => matches!(vd("0.5").deserialize_f32(Which), Ok(Hit::F32(b)) if b == 0.5f32.to_bits()),
+        };
+        assert!(ok, "a single value was parsed as, or handed over through, another type than the target's");
+        kani::cover!(which == 13, "f64 literal");
+        kani::cover!(which == 4 && d == 9, "i128");
+    }
 }
